@@ -456,8 +456,16 @@ func (g *vgen) fillField(f *field, v reflect.Value) {
 		}
 		switch f.flavour {
 		case "interface-with-initdefaults":
-			c := newLibConn(r)
-			v.Set(reflect.ValueOf(&c))
+			// whether InitDefaults of the value held is called for an absent
+			// setting is not pinned down: the value is one it does not change
+			if r.Intn(2) == 0 {
+				c := newLibConn(r)
+				c.InitDefaults()
+				v.Set(reflect.ValueOf(&c))
+			} else {
+				n := LibNoopInt(1 + r.Intn(99))
+				v.Set(reflect.ValueOf(&n))
+			}
 		case "config-by-value":
 			tree := g.cfgTree(r.Intn(4) == 0)
 			if c := newConfig(tree); c != nil {
